@@ -295,3 +295,40 @@ def dynext_cases(rng, n):
             ops.append('op dynext %s %s' % (hx(('\n'.join(blk) + '\n').encode()), ' '.join(kvs)))
         out.append(('dynext-%d' % k, conf + ops))
     return out
+
+
+def mppe_multi_cases(rng, n):
+    """C03: replies (Accept, Challenge, Reject, Accounting-Response) whose Microsoft vendor attribute carries 1..5
+    MS-MPPE-Send/Recv keys -- several of ONE type, mixed with other sub-attributes, in one or several vendor attributes --
+    and Accepts with several Tunnel-Passwords: every one of them is re-encrypted for the client"""
+    out = []
+    for k in range(n):
+        cfg = _cfg1(rng)
+        ops = []
+        now = 1000005
+        for i, rcode in enumerate([2, 11, 3, 5, 2]):
+            code = 4 if rcode == 5 else 1
+            pkt, _ = _req(rng, cfg, 0, code, ident=80 + i, uname=b'bob@example.com')
+            ops.append('op cpkt 0 %d %s %s' % (now, pipeline.rnd40(rng), hx(pkt)))
+            ops.append('op wpass 0 %d %s' % (now, pipeline.rnd40(rng)))
+            nk = 1 + (k + i) % 5
+            ty = [16, 17][(k + i) % 2]
+            subs = []
+            for j in range(nk):
+                subs.append((ty if (k % 3) else [16, 17][j % 2], rbytes(rng, 2 + 16 * rng.choice([1, 2, 3]))))
+                if rng.random() < 0.3:
+                    subs.append((12, b'ab'))
+            attrs = ['80:auto'] if rcode != 5 else []
+            if k % 4 == 3 and len(subs) > 1:
+                h = len(subs) // 2
+                attrs.append('26:' + hx(radius.vsa(311, subs[:h])))
+                attrs.append('18:' + hx(b'between'))
+                attrs.append('26:' + hx(radius.vsa(311, subs[h:])))
+            else:
+                attrs.append('26:' + hx(radius.vsa(311, subs)))
+            if rcode == 2:
+                for _ in range(1 + (k % 3)):
+                    attrs.append('69:' + hx(bytes([rng.randrange(32)]) + bytes([0x80 | rng.randrange(128), rng.randrange(256)]) + rbytes(rng, 16 * rng.choice([1, 2, 3]))))
+            ops.append('op sreply 0 %d %d %s %d - %s' % (i, now, pipeline.rnd40(rng), rcode, ' '.join(attrs)))
+        out.append(('mppe-%d' % k, cfg.conf_lines() + cfg.cfg_lines() + ops))
+    return out
